@@ -3,6 +3,7 @@
    of ncclient/xml_.py around the parser/serialiser oracles; see notes/C17.md).
    Model: Model/XTree.v, Model/XmlHelpers.v.  Spec: Spec/XmlHelpersSpec.v. *)
 From NC Require Import Model.Base Model.XTree Model.XmlHelpers Spec.XmlHelpersSpec Proofs.XmlHelpersProofs Proofs.XmlReplaceProofs Proofs.XmlCtorProofs.
+From NC Require Import Model.XmlHistory Proofs.XmlHistoryProofs.
 
 (* to_xml: whichever branch runs - the serialiser declared the document itself, or it did not and
    the declaration is prepended - the result is ONE declaration followed by the serialised element,
@@ -97,6 +98,92 @@ Theorem C17_ctor_ns : forall path tag u a t t',
 Proof. exact c17_ctor_sub_ele_ns. Qed.
 Print Assumptions C17_ctor_ns.
 
+(* ---------------- histories of helper calls on one caller-owned tree ----------------
+   The caller keeps a tree and hands elements of it (paths of lxml child indices) to the helpers in any order;
+   [ser] is the serialiser oracle (any function of the element it is handed and the encoding). *)
+
+(* to_xml, to_ele and validated_element return the caller's tree as it was *)
+Theorem C17_hist_observer_frame : forall ser t op t' o,
+  is_observer op = true -> hstep ser t op = Some (t', o) -> t' = t.
+Proof. exact c17_observer_frame. Qed.
+Print Assumptions C17_hist_observer_frame.
+
+(* ... and report on the element at the path alone (the text following it in its parent is a sibling) *)
+Theorem C17_hist_observer_result : forall ser t op t' o,
+  is_observer op = true -> hstep ser t op = Some (t', o) ->
+  exists s, lx_get_at (hop_path op) t = Some s /\ o = observe ser op s.
+Proof. exact c17_observer_result. Qed.
+Print Assumptions C17_hist_observer_result.
+
+(* a history ends in the tree that its documented in-place edits alone produce *)
+Theorem C17_hist_erase : forall ser ops t t' os,
+  hrun ser t ops = Some (t', os) -> exists os', hrun ser t (mutators ops) = Some (t', os').
+Proof. exact c17_history_erase. Qed.
+Print Assumptions C17_hist_erase.
+
+(* the result of any call in a history is the result of that call after the in-place edits that precede it:
+   nothing depends on what was serialised, validated or looked at before, nor on the order of it *)
+Theorem C17_hist_result : forall ser ops1 op ops2 t t' os,
+  hrun ser t (ops1 ++ op :: ops2) = Some (t', os) ->
+  exists t1 os1 t2 o, hrun ser t (mutators ops1) = Some (t1, os1) /\
+                      hstep ser t1 op = Some (t2, o) /\ nth_error os (length ops1) = Some o.
+Proof. exact c17_result_after_mutators. Qed.
+Print Assumptions C17_hist_result.
+
+(* observers only: the tree is untouched and each result is the one the call gives on the untouched tree *)
+Theorem C17_hist_pure : forall ser ops t t' os,
+  Forall (fun op => is_observer op = true) ops -> hrun ser t ops = Some (t', os) ->
+  t' = t /\ Forall2 (fun op o => hstep ser t op = Some (t, o)) ops os.
+Proof. exact c17_pure_history. Qed.
+Print Assumptions C17_hist_pure.
+
+(* every call, in-place edits included, leaves each element beside the one it was given exactly as it was
+   (names, binding, declarations, attributes, text, tails, children) *)
+Theorem C17_hist_step_frame : forall ser t op t' o q,
+  hstep ser t op = Some (t', o) -> diverge (hop_path op) q = true -> lx_get_at q t' = lx_get_at q t.
+Proof. exact c17_step_frame. Qed.
+Print Assumptions C17_hist_step_frame.
+
+(* ... and on the way down to the edited element every ancestor keeps its own name, binding, declarations
+   and attributes; of its children (text and tails included) only the one on the path changes *)
+Theorem C17_hist_ancestor : forall i p f sc n pf ds a k t',
+  lx_update_at (i :: p) f sc (ME n pf ds a k) = Some t' ->
+  exists l1 x y l2, k = l1 ++ x :: l2 /\ t' = ME n pf ds a (l1 ++ y :: l2) /\
+                    lx_update_at p f (ds ++ sc) x = Some y /\ lx_nth i k = Some x.
+Proof. exact lx_update_at_ancestor. Qed.
+Print Assumptions C17_hist_ancestor.
+
+(* the in-place edits at an element of the tree are the modelled helpers applied to that element
+   (C17_replace_ns_exact / C17_ctor speak about them) *)
+Theorem C17_hist_replace_at : forall ser t p o n t' x,
+  hstep ser t (HReplace p o n) = Some (t', x) ->
+  exists s, lx_get_at p t = Some s /\ lx_get_at p t' = Some (replace_ns o n s).
+Proof. exact c17_replace_at. Qed.
+Print Assumptions C17_hist_replace_at.
+
+Theorem C17_hist_sub_ele_at : forall ser t p tag a t' x,
+  hstep ser t (HSubEle p tag a) = Some (t', x) ->
+  exists n pf ds atts k sc,
+    lx_get_at p t = Some (ME n pf ds atts k) /\
+    lx_get_at p t' = Some (ME n pf ds atts (k ++ [mk_elem (ds ++ sc) [] (parent_ns (ME n pf ds atts k)) tag a])).
+Proof. exact c17_sub_ele_at. Qed.
+Print Assumptions C17_hist_sub_ele_at.
+
+Theorem C17_hist_sub_ele_ns_at : forall ser t p tag u a t' x,
+  hstep ser t (HSubEleNs p tag u a) = Some (t', x) ->
+  exists n pf ds atts k sc,
+    lx_get_at p t = Some (ME n pf ds atts k) /\
+    lx_get_at p t' = Some (ME n pf ds atts (k ++ [mk_elem (ds ++ sc) [] u tag a])).
+Proof. exact c17_sub_ele_ns_at. Qed.
+Print Assumptions C17_hist_sub_ele_ns_at.
+
+(* the step-by-step trace the runner reports is the history *)
+Theorem C17_hist_trace : forall ser ops t t' os,
+  hrun ser t ops = Some (t', os) ->
+  map snd (htrace ser t ops) = os /\ last (map fst (htrace ser t ops)) t = t'.
+Proof. exact c17_trace_run. Qed.
+Print Assumptions C17_hist_trace.
+
 (* ---------------- non-vacuity ---------------- *)
 From Coq Require Import String.
 From NC Require Import Model.Lit.
@@ -161,3 +248,19 @@ Proof.
   - intros l [H|[H|H]]; try tauto; try discriminate. injection H as <-. simpl. intros [H2|H2]; [discriminate|tauto].
   - intros l H; simpl in H; tauto.
 Qed.
+
+(* <a><b>x</b>tail<c/></a>: serialise b (which has a tail), look at c, rename c, serialise the whole tree.
+   The serialiser is handed b without "tail"; the tree the last call serialises still has it. *)
+Definition ex_hist_tree : mnode :=
+  ME (None, [97]) false [] [] [ME (None, [98]) false [] [] [MT [120]]; MT [116;97;105;108]; ME (None, [99]) false [] [] []].
+Definition ex_ser : mnode -> bytes -> bytes := fun _ _ => ex_body.
+Example C17_ex_history :
+  let enc := lit "UTF-8"%string in
+  let ops := [HToXml [0%nat] enc; HValidated [1%nat] (TagsStr [99]) []; HReplace [1%nat] None (Some [117]); HToXml [] enc] in
+  let t' := ME (None, [97]) false [] [] [ME (None, [98]) false [] [] [MT [120]]; MT [116;97;105;108]; ME (Some [117], [99]) false [] [] []] in
+  hrun ex_ser ex_hist_tree ops =
+    Some (t', [OXml (ME (None, [98]) false [] [] [MT [120]]) (to_xml ex_body enc); OVal VAccept; ODone; OXml t' (to_xml ex_body enc)]) /\
+  hrun ex_ser ex_hist_tree (mutators ops) = Some (t', [ODone]) /\
+  diverge [1%nat] [0%nat] = true /\ lx_get_at [0%nat] t' = lx_get_at [0%nat] ex_hist_tree /\
+  lx_get_at [2%nat] ex_hist_tree = None.
+Proof. vm_compute. repeat split; reflexivity. Qed.
